@@ -52,26 +52,42 @@ def _family_of_pc(pc, variants, who='self.family'):
     return allowed
 
 
+def _basis_items(f, b, argv):
+    """(sx, [(outcome, [item values])]) of a function that returns a Vec of bases: the returned sequence by value (vec!
+    literal, pushes, extends, collected chains — pk/sym.py sequences); if some path's result is not a finite sequence, the
+    pushes are recorded instead."""
+    sx = SymEx(f)
+    outs = sx.run(b, argv)
+    if outs and not sx.aborted:
+        res = []
+        for o in outs:
+            r = sx.deep(o.st, o.ret)
+            if not (isinstance(r, tuple) and r[0] == 'seq'):
+                res = None
+                break
+            res.append((o, [sx.deep(o.st, x) for x in r[1]]))
+        if res is not None:
+            return sx, res
+    sx = SymEx(f, models=[recorder({'Vec::<T, A>::push': 'push'})])
+    outs = sx.run(b, argv)
+    if not outs or sx.aborted:
+        return sx, None
+    return sx, [(o, [e[1][1] for e in o.effects if e[0] == ('rec', 'push')]) for o in outs]
+
+
 def dof_table(f):
     """{family variant: [(field, lo value, hi value)]} from Cell2::get_degrees_of_freedom."""
     b = f.one(self_adt='cell::Cell2', name='get_degrees_of_freedom')
     if b is None:
         return None, 'Cell2::get_degrees_of_freedom not found', None
-    sx = SymEx(f, models=[recorder({'Vec::<T, A>::push': 'push'})])
-    outs = sx.run(b, [SYM('self')])
-    if not outs or sx.aborted:
+    sx, res = _basis_items(f, b, [SYM('self')])
+    if res is None:
         return None, 'get_degrees_of_freedom is not loop-free', b
     variants = family_variants(f)
     table = {}
-    for o in outs:
+    for o, items in res:
         fams = _family_of_pc(o.pc, variants)
         pushes = []
-        items = [e[1][1] for e in o.effects if e[0] == ('rec', 'push')]
-        if not items:
-            # built without push (Option/array/iterator chain collected into the Vec): the returned sequence itself
-            r = sx.deep(o.st, o.ret)
-            if isinstance(r, tuple) and r[0] == 'seq':
-                items = [sx.deep(o.st, x) for x in r[1]]
         for item in items:
             if item[0] != 'struct':
                 return None, 'pushed item is not a StandardBasis literal', b
@@ -119,17 +135,11 @@ def site_basis_table(f):
     b = f.one(self_adt='site::OccupiedSite', name='get_basis')
     if b is None:
         return None, 'OccupiedSite::get_basis not found', None
-    sx = SymEx(f, models=[recorder({'Vec::<T, A>::push': 'push'})])
-    outs = sx.run(b, [SYM('self'), SYM('rot_symmetry')])
-    if not outs or sx.aborted:
+    sx, res = _basis_items(f, b, [SYM('self'), SYM('rot_symmetry')])
+    if res is None:
         return None, 'get_basis is not loop-free', b
     seen = {}
-    for o in outs:
-        items = [e[1][1] for e in o.effects if e[0] == ('rec', 'push')]
-        if not items:
-            r = sx.deep(o.st, o.ret)
-            if isinstance(r, tuple) and r[0] == 'seq':
-                items = [sx.deep(o.st, x) for x in r[1]]
+    for o, items in res:
         for item in items:
             if item[0] != 'struct':
                 return None, 'pushed item is not a StandardBasis literal', b
